@@ -109,3 +109,118 @@ Lemma allow_leader_role b p f : allow_leader b p f = true -> prole p = Voter \/ 
 Proof.
   unfold allow_leader. rewrite no_leader_roles_ok. destruct (prole p); cbn; intros H; try discriminate; auto.
 Qed.
+
+Definition Ovoter (b : bstate) (st : Z) : bool := match pm_get (b_origin b) st with Some p => negb (is_learner p) | None => false end.
+Definition Tvoter (b : bstate) (st : Z) : bool := match pm_get (b_target b) st with Some p => negb (is_learner p) | None => false end.
+
+Definition joint_P (b : bstate) : list (Z * Z) := pairs_of (cfold f_voter_add (b_add b) (b_promote b)).
+Definition joint_D (b : bstate) : list (Z * Z) := pairs_of (cfold f_voter_rem (b_remove b) (b_demote b)).
+Definition joint_tl (b : bstate) : Z := b_tleader (set_target_leader_if_not_exist (fold_left joint_add_one (b_add b) b)).
+
+Lemma static_fields b b' : static b' = static b ->
+  b_cluster b' = b_cluster b /\ b_origin b' = b_origin b /\ b_origin_leader b' = b_origin_leader b /\ b_target b' = b_target b /\
+  b_roles b' = b_roles b /\ b_light b' = b_light b /\ b_force b' = b_force b.
+Proof. unfold static. intros H. inversion H. repeat split; assumption. Qed.
+
+Lemma kt_fields bb to kl kr :
+  let bt := set_kinds (exec_transfer bb to) kl kr in
+  b_steps bt = b_steps bb ++ [TransferLeader (b_cur_leader bb) to] /\ b_remove bt = b_remove bb /\
+  b_promote bt = b_promote bb /\ b_demote bt = b_demote bb /\ b_origin_leader bt = b_origin_leader bb /\ b_tleader bt = b_tleader bb.
+Proof. repeat split; reflexivity. Qed.
+
+Lemma v2_fields bb tr :
+  let bv := exec_change_v2 bb true tr in
+  b_steps bv =
+    b_steps bb ++ ChangePeerV2Enter (pairs_of (b_promote bb)) (pairs_of (b_demote bb))
+    :: (if tr && negb (b_origin_leader bb =? b_tleader bb) then [TransferLeader (b_cur_leader bb) (b_tleader bb)] else [])
+    ++ [ChangePeerV2Leave (pairs_of (b_promote bb)) (pairs_of (b_demote bb))] /\
+  b_remove bv = b_remove bb /\
+  (tr = false -> b_cur_leader bv = b_cur_leader bb).
+Proof.
+  unfold exec_change_v2. destruct (tr && negb (b_origin_leader bb =? b_tleader bb)) eqn:E.
+  - cbn. rewrite E. cbn. rewrite <- !app_assoc. cbn. repeat split; try reflexivity. intros ->. discriminate.
+  - cbn. rewrite E. cbn. rewrite <- !app_assoc. cbn. repeat split; reflexivity.
+Qed.
+
+Lemma build_joint_steps b bF :
+  b_steps b = [] -> b_cur_leader b = b_origin_leader b -> b_origin_leader b <> 0 -> build_joint b = Some bF ->
+  let tl := joint_tl b in
+  let ol := b_origin_leader b in
+  tl <> 0 /\
+  exists m,
+    b_steps bF = joint_plan (b_light b) (b_add b) (joint_P b) (joint_D b) (b_remove b) m ol tl /\
+    match m with
+    | TBefore => ol <> tl /\ Ovoter b tl = true
+    | TStay => ol = tl
+    | TAfter => ol <> tl /\ Ovoter b tl = false /\ Tvoter b ol = true
+    | TInside => ol <> tl /\ Ovoter b tl = false /\ Tvoter b ol = false
+    end.
+Proof.
+  intros Hs0 Hcl Hol0 Hb tl ol. unfold build_joint in Hb.
+  set (b1 := fold_left joint_add_one (b_add b) b) in *.
+  destruct (joint_adds_spec (b_add b) b) as (A1 & A2 & A3 & A4 & A5 & A6 & A7). fold b1 in A1, A2, A3, A4, A5, A6, A7.
+  set (b2 := set_target_leader_if_not_exist b1) in *.
+  assert (B2 : b_steps b2 = b_steps b1 /\ b_promote b2 = b_promote b1 /\ b_remove b2 = b_remove b1 /\ b_demote b2 = b_demote b1 /\
+               static b2 = static b1 /\ b_cur_leader b2 = b_cur_leader b1).
+  { unfold b2, set_target_leader_if_not_exist. destruct (negb (b_tleader b1 =? 0)); repeat split; reflexivity. }
+  destruct B2 as (B1 & B3 & B4 & B5 & B6 & B7).
+  change (b_tleader b2) with tl in Hb.
+  destruct (tl =? 0) eqn:Etl; [discriminate|]. apply Z.eqb_neq in Etl. split; [exact Etl|].
+  destruct (joint_demote_removed_spec b2) as (C1 & C2 & C3 & C4 & C5 & C6 & C7 & C8).
+  set (b3 := joint_demote_removed b2) in *.
+  destruct (static_fields _ _ A5) as (S1 & S2 & S3 & S4 & S5 & S6 & S7).
+  destruct (static_fields _ _ B6) as (T1 & T2 & T3 & T4 & T5 & T6 & T7).
+  destruct (static_fields _ _ C6) as (U1 & U2 & U3 & U4 & U5 & U6 & U7).
+  assert (Eol : b_origin_leader b3 = ol) by (unfold ol; congruence).
+  assert (Etl3 : b_tleader b3 = tl) by (rewrite C7; reflexivity).
+  assert (Eor : b_origin b3 = b_origin b) by congruence.
+  assert (Eta : b_target b3 = b_target b) by congruence.
+  assert (Ecl : b_cur_leader b3 = ol) by (unfold ol; congruence).
+  assert (Est : b_steps b3 = add_steps (b_light b) (b_add b)) by (rewrite C2, B1, A1, Hs0; reflexivity).
+  assert (EP : pairs_of (b_promote b3) = joint_P b) by (unfold joint_P; rewrite C3, B3, A2; reflexivity).
+  assert (ED : pairs_of (b_demote b3) = joint_D b) by (unfold joint_D; rewrite C1, B4, B5, A3, A4; reflexivity).
+  assert (ER : b_remove b3 = b_remove b) by congruence.
+  rewrite Eol, Etl3, Eor, Eta in Hb.
+  assert (E0 : (ol =? 0) = false) by (apply Z.eqb_neq; exact Hol0).
+  rewrite E0 in Hb. cbn [orb] in Hb.
+  unfold joint_plan, Ovoter, Tvoter.
+  destruct (match pm_get (b_origin b) tl with Some p => negb (is_learner p) | None => false end) eqn:Eov.
+  - (* target leader is a voter of the origin: transfer first *)
+    destruct (ol =? tl) eqn:Eot; cbn [negb] in Hb.
+    + apply Z.eqb_eq in Eot. exists TStay. inversion Hb; subst bF; clear Hb.
+      rewrite joint_remove_all_spec. destruct (v2_fields b3 false) as (V1 & V2 & _). rewrite V1, V2, Est, EP, ED, ER. cbn [andb app].
+      rewrite <- app_assoc. cbn [app]. split; [reflexivity|exact Eot].
+    + apply Z.eqb_neq in Eot. exists TBefore. inversion Hb; subst bF; clear Hb.
+      rewrite joint_remove_all_spec.
+      destruct (kt_fields b3 tl true (b_kregion b3)) as (K1 & K2 & K3 & K4 & K5 & K6).
+      set (bt := set_kinds (exec_transfer b3 tl) true (b_kregion b3)) in *.
+      destruct (v2_fields bt false) as (V1 & V2 & _). rewrite V1, V2, K1, K2, K3, K4, Est, EP, ED, ER, Ecl. cbn [andb app].
+      rewrite <- !app_assoc. cbn [app]. split; [reflexivity|]. split; [exact Eot|reflexivity].
+  - destruct (match pm_get (b_target b) ol with Some p => negb (is_learner p) | None => false end) eqn:Etv.
+    + (* the origin leader stays a voter: change first, transfer afterwards *)
+      destruct (ol =? tl) eqn:Eot; cbn [negb] in Hb.
+      * apply Z.eqb_eq in Eot. exists TStay. inversion Hb; subst bF; clear Hb.
+        rewrite joint_remove_all_spec. destruct (v2_fields b3 false) as (V1 & V2 & _). rewrite V1, V2, Est, EP, ED, ER. cbn [andb app].
+        rewrite <- app_assoc. cbn [app]. split; [reflexivity|exact Eot].
+      * apply Z.eqb_neq in Eot. exists TAfter. inversion Hb; subst bF; clear Hb.
+        rewrite joint_remove_all_spec.
+        destruct (v2_fields b3 false) as (V1 & V2 & V3).
+        set (bv := exec_change_v2 b3 true false) in *.
+        destruct (kt_fields bv tl true (b_kregion bv)) as (K1 & K2 & K3 & K4 & K5 & K6).
+        rewrite K1, K2, V1, V2, (V3 eq_refl), Est, EP, ED, ER, Ecl. cbn [andb app].
+        rewrite <- !app_assoc. cbn [app]. split; [reflexivity|]. repeat split; auto.
+    + (* leadership moves inside the joint state *)
+      exists TInside. inversion Hb; subst bF; clear Hb.
+      rewrite joint_remove_all_spec.
+      assert (Eot : ol <> tl).
+      { intros C. (* tl is a target voter would contradict Etv; without that knowledge the transfer is simply absent *)
+        admit. }
+      destruct (v2_fields b3 true) as (V1 & V2 & _).
+      set (bv := exec_change_v2 b3 true true) in *.
+      assert (K : b_steps (set_kinds bv true (b_kregion bv)) = b_steps bv /\ b_remove (set_kinds bv true (b_kregion bv)) = b_remove bv)
+        by (split; reflexivity).
+      destruct K as (K1 & K2). rewrite K1, K2, V1, V2, Eol, Etl3, Est, EP, ED, ER, Ecl.
+      assert (En : negb (ol =? tl) = true) by (apply negb_true_iff, Z.eqb_neq; exact Eot).
+      rewrite En. cbn [andb app].
+      rewrite <- !app_assoc. cbn [app]. split; [reflexivity|]. repeat split; auto.
+Admitted.
